@@ -13,6 +13,7 @@ package main
 //	R3  a temporary file opened for writing is truncated or created exclusively
 //	R4  the function reports success only after its commit step (rename into place / remove)
 //	R5  loader functions perform no mutating file-system call
+//	R6  no write, create or rename can follow the removal of a live file in the same execution
 
 import (
 	"fmt"
@@ -59,6 +60,7 @@ func pluginCrash(r *Run, it Item) {
 		ok   string
 	}
 	var writes []wr
+	var liveRemoves []*CallSite
 	commitReach := "false"
 	for _, cs := range fr.Trace.calls {
 		pos := r.Eng.pos(cs.Pos)
@@ -119,8 +121,22 @@ func pluginCrash(r *Run, it Item) {
 			vc.oblige(fmt.Sprintf("%s#crash:R2-rename-of-incomplete-temp:%s", key, site), "crash", and(cs.Reach, isTmpTerm(vc, src, tmpID)), or(okSome...), pos)
 			vc.oblige(fmt.Sprintf("%s#crash:R2-rename-onto-temp:%s", key, site), "crash", cs.Reach, or(not(isTmpTerm(vc, dst, tmpID)), isTmpTerm(vc, src, tmpID)), pos)
 			commitReach = or(commitReach, and(cs.Reach, eq(cs.Res[0].T, "0"), not(isTmpTerm(vc, dst, tmpID))))
-		case "os.Remove":
+		case "os.Remove", "os.RemoveAll":
 			commitReach = or(commitReach, and(cs.Reach, eq(cs.Res[0].T, "0")))
+			liveRemoves = append(liveRemoves, cs)
+		}
+		// R6: removing a live file is the last file-system step.  A write, create or rename that can
+		// follow a removal on the same path of execution means the old state is gone before the new
+		// one is committed: a crash in between loses the record altogether.
+		switch cs.Callee {
+		case "os.WriteFile", "os.OpenFile", "os.Create", "os.Rename", "os.CreateTemp", "os.Truncate":
+			for _, rm := range liveRemoves {
+				if isTmpTerm(vc, rm.Args[0][0].T, tmpID) == "true" {
+					continue
+				}
+				n++
+				vc.oblige(fmt.Sprintf("%s#crash:R6-removal-before-replacement:%s#%d-then-%s", key, rm.Callee, rm.Ord, site), "crash", "true", not(and(rm.Reach, cs.Reach)), pos)
+			}
 		}
 	}
 	if !loader {
